@@ -10,9 +10,9 @@ git -C /repo worktree add -q --detach "$W" HEAD || exit 9
 trap 'git -C /repo worktree remove --force "$W" 2>/dev/null' EXIT INT TERM
 git -C "$W" apply "$D/patch.diff" || { echo "patch does not apply"; exit 9; }
 cd /verif
-VERIF_REPO="$W" timeout 1400 ./check "$P" --no-evidence "$@" > /tmp/try_seed_$P.log 2>&1
+VERIF_REPO="$W" timeout 1400 ./check "$P" --no-evidence "$@" > /tmp/try_seed_$(basename "$D")_$P.log 2>&1
 rc=$?
-grep -c '^VIOLATION' /tmp/try_seed_$P.log | sed 's/^/violations: /'
-grep '^VIOLATION' /tmp/try_seed_$P.log | head -5 | cut -c1-260
-tail -1 /tmp/try_seed_$P.log | cut -c1-300
+grep -c '^VIOLATION' /tmp/try_seed_$(basename "$D")_$P.log | sed 's/^/violations: /'
+grep '^VIOLATION' /tmp/try_seed_$(basename "$D")_$P.log | head -5 | cut -c1-260
+tail -1 /tmp/try_seed_$(basename "$D")_$P.log | cut -c1-300
 echo "exit=$rc"
